@@ -17,6 +17,13 @@ var commonAssumptions = []string{
 }
 
 var propMeta = map[string]PropMeta{
+	"C16": {
+		NotCovered: "Concurrent use of one client object (two goroutines racing Initialize/Close) is C20's subject and not decided here; the not-initialized error is required to be non-nil (ListResources/ReadResource wrap the sentinel with %w), its text is not examined; the capabilities part relies on the registries' type invariant (every ordered uri is registered), which C12's obligations establish for the registering functions.",
+		Assumptions: append([]string{
+			"a call to a transport method counts as exactly one transport operation (ghost counter netops); transports never call back into Client.Initialize/Close/setState",
+			"Logger and Session methods are side-effect free with respect to manager and client state",
+		}, commonAssumptions...),
+	},
 	"C17": {
 		NotCovered: "Wall-clock behaviour (that a wait really lasts the computed duration; promptness of cancellation) and the classification of concrete transport errors produced by net/http are not decided: the obligations fix the attempt count, the retry-only-after-transient rule, the clamping of every configuration, the value passed to time.After for every k, and exactly-once without a retry option. The power Factor^(k-1) is the float64 left-to-right product the property's formula denotes.",
 		Assumptions: append([]string{
